@@ -19,4 +19,29 @@ Fixpoint read_all (evs : list rdev) : option str :=
   | EErr :: _ => None
   end.
 Definition hash_file_pre (evs : list rdev) : option str := read_all evs.
-Definition hash_patch_pre (evs : list rdev) : option str := option_map filter_patch (read_all evs).
+(* hash_patch reads through BufReader::split(b'\n').  [patch_lines] are the lines that
+   iterator yields (without their '\n'); [cur_rev] is the line being collected,
+   reversed.  Interrupted is retried and an error returned, as above - but a
+   read of 0 bytes only makes read_until return what it has: it ends the LINE
+   being collected, and ends the iteration only when nothing is pending (the
+   next call reads again).  For schedules without 0-byte reads this is the
+   filter applied to all the bytes (DistinfoProofs.patch_schedule). *)
+Fixpoint feed (cur_rev : str) (c : str) : list str * str :=
+  match c with
+  | [] => ([], cur_rev)
+  | x :: r => if x =? 10 then let (ls, p) := feed [] r in (frev cur_rev :: ls, p)
+              else feed (x :: cur_rev) r
+  end.
+Fixpoint patch_lines (evs : list rdev) (cur_rev : str) : option (list str) :=
+  match evs with
+  | [] => Some (match cur_rev with [] => [] | _ => [frev cur_rev] end)
+  | EData [] :: r => match cur_rev with
+                     | [] => Some []
+                     | _ => option_map (cons (frev cur_rev)) (patch_lines r [])
+                     end
+  | EData c :: r => let (ls, p) := feed cur_rev c in option_map (app ls) (patch_lines r p)
+  | EIntr :: r => patch_lines r cur_rev
+  | EErr :: _ => None
+  end.
+Definition keep_line (l : str) : str := if contains netbsd l then [] else l ++ [10].
+Definition hash_patch_pre (evs : list rdev) : option str := option_map (flat_map keep_line) (patch_lines evs []).
